@@ -25,6 +25,7 @@ def run(ctx):
     ctx.rule('R15.1', 'FilterStack.run: every pipeline step and the yield lie inside one try whose RecursionError handler raises SQLParseError', floor=3)
     ctx.rule('R15.2', 'recursion containment: no call in an entry point, other than consuming stack.run(...), reaches a recursive function', floor=8)
     ctx.rule('R15.3', 'the str(stmt) exception in split is justified: no grouping and no group-building filter on that stack', floor=1)
+    ctx.rule('R15.5', 'a tree that parse() returns can be serialised at any depth: str()/flatten() of a statement reach no recursive function', floor=2)
     ctx.rule('R15.4', 'the package never changes interpreter-wide limits (recursion limit, thread stack size, resource limits)', floor=1)
     repo = ctx.repo
     cg = get_cg(ctx)
@@ -107,8 +108,11 @@ def run(ctx):
                     continue
                 reach |= cg.reachable([c])
             hit = sorted(reach & rec)
-            if hit and q == 'sqlparse.split' and is_name(call.func, 'str'):
-                check_split_exception(ctx, ep, call, hit)
+            if q == 'sqlparse.split' and is_name(call.func, 'str'):
+                if hit:
+                    check_split_exception(ctx, ep, call, hit)
+                else:
+                    ctx.ob('R15.3', 'split:str(stmt)', loc, 'str(stmt) in split cannot recurse (the serialisation walk is iterative)', True)
                 continue
             path = None
             if hit:
@@ -121,6 +125,17 @@ def run(ctx):
                    f'{" -> ".join(x.replace("sqlparse.", "") for x in (path or []))} outside FilterStack.run\'s try: '
                    'RecursionError on deeply nested input escapes untranslated')
         # generator expressions / comprehensions etc. in the entry point body have no extra calls beyond sites
+    # R15.5: the final tree is up to three times deeper than anything a grouping pass walked (Function, Parenthesis and
+    # IdentifierList levels are added by different passes, the last one bottom-up), so "grouping got through" says nothing about
+    # the depth a later walk needs: the serialisation primitives themselves must not recurse
+    for q in ('sqlparse.sql.TokenList.__str__', 'sqlparse.sql.TokenList.flatten', 'sqlparse.sql.Token.__str__', 'sqlparse.sql.Token.flatten'):
+        fn = repo.func(q)
+        hit = sorted(cg.reachable([q]) & rec)
+        path = cg.path(q, set(hit)) if hit else None
+        ctx.ob('R15.5', f'serialise:{fn.short}', f'{fn.mod.relpath}:{fn.node.lineno}', f'{fn.short} reaches no recursive function', not hit,
+               f'reaches recursive {hit[0].replace("sqlparse.", "") if hit else ""} via {" -> ".join(x.replace("sqlparse.", "") for x in (path or []))}: '
+               'parse() can return a statement (e.g. f(a, f(a, ...)) nested ~400 deep at the default limit) whose str()/flatten() raises '
+               'RecursionError in the caller\'s code, outside FilterStack.run\'s translation')
     # the entry points must consume run (sanity)
     for q in ENTRY[:4]:
         reach = cg.reachable([q])
